@@ -140,7 +140,14 @@ func ssCase(t *rapid.T, gr grp, maxN int) {
 	vlib.Class(sub, fmt.Sprintf("t=%d", tt))
 
 	secS := sc(g, secret)
-	ss := secretsharing.New(rnd, uint(tt), secS)
+	// the scalar handed to New is the caller's object: overwriting it afterwards must not change the sharing
+	secArg := sc(g, secret)
+	ss := secretsharing.New(rnd, uint(tt), secArg)
+	if rapid.Bool().Draw(t, "mutateSecretArg") {
+		secArg.SetUint64(0xC17)
+		secArg.Add(secArg, secArg)
+		vlib.Class(sub, "caller-mutates-secret-scalar-after-New")
+	}
 	var shares []secretsharing.Share
 	ids := make([]*big.Int, n)
 	if seq {
@@ -151,6 +158,15 @@ func ssCase(t *rapid.T, gr grp, maxN int) {
 		vlib.Class(sub, "ids=sequential(Share)")
 	} else {
 		seen := map[string]bool{}
+		// the dealer either builds a fresh identifier scalar per share (and overwrites it after the call), or
+		// mutates ONE scalar object in place between the ShareWithID calls (id.SetUint64(k); ss.ShareWithID(id))
+		reuse := rapid.Bool().Draw(t, "reuseOneIDScalar")
+		idObj := g.NewScalar()
+		if reuse {
+			vlib.Class(sub, "dealer-reuses-one-id-scalar")
+		} else {
+			vlib.Class(sub, "dealer-overwrites-id-scalar-after-call")
+		}
 		for i := 0; i < n; i++ {
 			for {
 				id, cls := drawID(t, r, fmt.Sprintf("id%d", i))
@@ -161,8 +177,16 @@ func ssCase(t *rapid.T, gr grp, maxN int) {
 					break
 				}
 			}
-			shares = append(shares, ss.ShareWithID(sc(g, ids[i])))
+			if !reuse {
+				idObj = g.NewScalar()
+			}
+			idObj.SetBigInt(ids[i])
+			shares = append(shares, ss.ShareWithID(idObj))
+			if !reuse {
+				idObj.SetUint64(0xBAD) // the caller's scalar is the caller's to overwrite
+			}
 		}
+		idObj.SetUint64(0xBAD)
 		vlib.Class(sub, "ids=arbitrary(ShareWithID)")
 	}
 	if len(shares) != n {
@@ -191,6 +215,42 @@ func ssCase(t *rapid.T, gr grp, maxN int) {
 	for i := tt + 1; i < n; i++ {
 		if fi := refEval(r, xs, ys, ids[i]); fi.Cmp(vals[i]) != 0 {
 			vlib.Report(t, "C17/ss/"+gr.name+"/share-off-polynomial", desc()+fmt.Sprintf(": share %d has value %v, polynomial through the first t+1 shares gives %v", i, vals[i], fi))
+			return
+		}
+	}
+
+	// (A) returned objects belong to the caller: overwriting the fields of one returned share and the
+	// elements of one returned commitment must leave the sharing, the other shares, a later commitment
+	// and a later Recover unaffected.
+	if rapid.Bool().Draw(t, "mutateReturned") {
+		j := rapid.IntRange(0, n-1).Draw(t, "mutIdx")
+		keep := secretsharing.Share{ID: shares[j].ID.Copy(), Value: shares[j].Value.Copy()}
+		shares[j].ID.SetUint64(0xDEAD)
+		shares[j].Value.Add(shares[j].Value, shares[j].Value)
+		shares[j].Value.SetUint64(1)
+		again := ss.ShareWithID(sc(g, ids[j]))
+		if !again.ID.IsEqual(keep.ID) || !again.Value.IsEqual(keep.Value) {
+			vlib.Report(t, "C17/ss/"+gr.name+"/sharing-changed-by-mutating-returned-share", desc()+fmt.Sprintf(": after overwriting the fields of returned share %d, ShareWithID(same id) gives (%v,%v), before (%v,%v)", j, again.ID, again.Value, keep.ID, keep.Value))
+			return
+		}
+		for i, sh := range shares {
+			if i != j && (!sh.ID.IsEqual(sc(g, ids[i])) || scalarToBig(g, sh.Value).Cmp(vals[i]) != 0) {
+				vlib.Report(t, "C17/ss/"+gr.name+"/share-changed-by-mutating-another-share", desc()+fmt.Sprintf(": share %d changed after overwriting share %d", i, j))
+				return
+			}
+		}
+		shares[j] = keep
+		c0 := ss.CommitSecret()
+		for _, e := range c0 {
+			e.Dbl(e)
+			e.Add(e, g.Generator())
+		}
+		vlib.Class(sub, "caller-mutates-returned-share-and-commitment")
+	}
+	// identifiers and values must still be the dealt ones (a share that aliases a caller's scalar would have moved)
+	for i, sh := range shares {
+		if !sh.ID.IsEqual(sc(g, ids[i])) || scalarToBig(g, sh.Value).Cmp(vals[i]) != 0 {
+			vlib.Report(t, "C17/ss/"+gr.name+"/share-id", desc()+fmt.Sprintf(": share %d is now (%v,%v), dealt (%v,%v)", i, sh.ID, sh.Value, ids[i], vals[i]))
 			return
 		}
 	}
